@@ -240,6 +240,8 @@ def judge_dir(specs, settings):
 
 
 def judge_case(case):
+    if case["kind"] == "path_form":
+        return judge_path_form(case["form"], [tuple(x) for x in case["spec"]], tuple(case["settings"]))
     if case["kind"] == "dir":
         return judge_dir([[tuple(x) for x in sp] for sp in case["specs"]], tuple(case["settings"]))
     spec = [tuple(x) for x in case["spec"]["items"]]
@@ -258,6 +260,87 @@ def chunk(job):
         if vs and len(out) < 80:
             out += vs
     return n, out
+
+
+PATH_FORMS = ["absolute", "relative", "dot_slash", "dotdot", "dir_with_space", "symlink", "dir_trailing_slash", "dir_relative",
+              "via_dir_symlink", "dir_symlink_then_dotdot", "dir_symlink_then_dotdot_abs", "dir_symlink_then_dotdot_dir"]
+
+
+def judge_path_form(form, spec, settings):
+    """The same sheet given to the command under different spellings of its path: the output is always the sibling
+    <name>_cm.css of the path that was given, the working directory only ever receives the report."""
+    sheet = G.Sheet(spec)
+    case = {"kind": "path_form", "form": form, "spec": [list(x) for x in spec], "settings": list(settings)}
+    out = []
+    with R.Workdir() as w:
+        base = os.path.join(w.path, "proj dir" if form == "dir_with_space" else "proj")
+        os.makedirs(os.path.join(base, "css"))
+        real = os.path.join(base, "css", "s.css")
+        open(real, "w").write(sheet.text)
+        cwd = os.path.join(base, "work")
+        os.makedirs(cwd)
+        expect = os.path.join(base, "css", "s_cm.css")
+        if form in ("absolute", "dir_with_space"):
+            arg = real
+        elif form == "relative":
+            arg = os.path.join("..", "css", "s.css")
+        elif form == "dot_slash":
+            cwd = os.path.join(base, "css")
+            arg = "./s.css"
+        elif form == "dotdot":
+            arg = os.path.join("..", "work", "..", "css", "s.css")
+        elif form == "symlink":
+            os.makedirs(os.path.join(base, "links"))
+            arg = os.path.join(base, "links", "l.css")
+            os.symlink(real, arg)
+            expect = os.path.join(base, "links", "l_cm.css")
+        elif form == "via_dir_symlink":
+            # work/shared -> ../css : the file is reached through a directory link; its sibling is in the real directory
+            os.symlink(os.path.join("..", "css"), os.path.join(cwd, "shared"))
+            arg = os.path.join("shared", "s.css")
+        elif form in ("dir_symlink_then_dotdot", "dir_symlink_then_dotdot_abs", "dir_symlink_then_dotdot_dir"):
+            # work/deep -> ../css/inner : for the OS 'deep/..' is css/, not work/ (a lexical clean-up of the path gets it wrong)
+            os.makedirs(os.path.join(base, "css", "inner"))
+            os.symlink(os.path.join("..", "css", "inner"), os.path.join(cwd, "deep"))
+            arg = os.path.join("deep", "..", "s.css")
+            if form == "dir_symlink_then_dotdot_abs":
+                arg = os.path.join(cwd, arg)
+            if form == "dir_symlink_then_dotdot_dir":
+                arg = os.path.join("deep", "..")
+        elif form == "dir_trailing_slash":
+            arg = os.path.join(base, "css") + os.sep
+        elif form == "dir_relative":
+            arg = os.path.join("..", "css")
+        before_real = open(real, "rb").read()
+        mode, premium, dbg = settings
+        a = [arg, "--mode", str(mode)] + (["--premium"] if premium else []) + (["--default-bg", dbg] if dbg else [])
+        res = R.run_cli(a, cwd)
+        files = []
+        for dp, _dn, fn in os.walk(base):
+            files += [os.path.relpath(os.path.join(dp, f), base) for f in fn]
+        tuned = R.parse_stdout(res["stdout"])[0]["tuned"]
+        allowed = {os.path.relpath(real, base), os.path.relpath(expect, base)}
+        if form == "symlink":
+            allowed.add(os.path.relpath(arg, base))
+        if tuned:
+            allowed.add(os.path.relpath(os.path.join(cwd, "cm_colors_report.html"), base))
+        if res["exc"] or res["exit_code"] != 0:
+            out.append(dict(sig="path/cli_raises", case=case, msg="cm-colors %s (cwd %s) exited %s: %s" % (arg, os.path.relpath(cwd, base), res["exit_code"], res["exc"])))
+        if open(real, "rb").read() != before_real:
+            out.append(dict(sig="input/bytes_changed", case=case, msg="path form %s: the input was modified" % form))
+        junk = any(any(isinstance(d, str) and not d.startswith("/*") for d in it.decls) for _, it, _ in sheet.rules)
+        if not os.path.exists(expect) and not junk:
+            out.append(dict(sig="path/output_not_beside_input", case=case, msg="path form %s (%s): no %s; files now: %s"
+                            % (form, arg, os.path.relpath(expect, base), sorted(files))))
+        extra = set(files) - allowed
+        if extra:
+            out.append(dict(sig="listing/unexpected_file_created", case=case, msg="path form %s (%s): unexpected files %s" % (form, arg, sorted(extra))))
+    return out
+
+
+def chunk_paths(job):
+    form, spec, st = job
+    return 1, judge_path_form(form, spec, st)
 
 
 def chunk_names(job):
@@ -337,6 +420,14 @@ def run(ctx):
         ctx.add_violations(vs)
     ctx.sub("input_file_names", states=k, transitions=k, evaluations=k, traces=k, distinct_nontrivial=k, exhaustive=True, names=NAMES)
     ctx.sample({"subcheck": "name", "file": "theme_cm.css", "invocation": "cm-colors path/to/theme_cm.css"})
+    pj = [(f, sp, st) for f in PATH_FORMS for sp in ([("lit_fail", "none")], [("var_t", "none"), ("readable", "none")], [("readable", "none")])
+          for st in ((1, False, None), (2, True, "#1e1e1e"))]
+    kp = 0
+    for cnt, vs in ctx.pmap_forked(chunk_paths, pj, chunksize=2):
+        kp += cnt
+        ctx.add_violations(vs)
+    ctx.sub("invocation_path_forms", states=kp, transitions=kp, evaluations=kp, traces=kp, distinct_nontrivial=kp, exhaustive=True, forms=PATH_FORMS)
+    ctx.sample({"subcheck": "path_form", "form": "symlink", "arg": "proj/links/l.css -> proj/css/s.css"})
     dj = []
     base = [[("lit_fail", "none")], [("var_t", "none"), ("readable", "none")], [("unfixable", "none")], [("root_literal", "none")], [("bg_only", "none")]]
     for a, b in itertools.permutations(base, 2):
